@@ -243,9 +243,14 @@ def check_tree_faults(out, case):
                     for e in readable:
                         with open(e.abspath, "rb") as f:
                             lc += f.read().count(b"\n")
-                    # directories/symlinks contribute nothing asserted to line_count; compare only count and size sum
+                    # count and size sum do not depend on readability at all
                     if rows and (rows[0][0] != control[0][0] or rows[0][1] != control[0][1]):
                         out.add("C17/file-fault/aggregate", query=q, got=list(rows[0]), control=list(control[0]))
+                    # the line count sums over the readable files: an unreadable one in between costs its own lines
+                    # only (links: whether lines are counted through them is not asserted - trees with links are skipped)
+                    elif rows and not any(e.kind == "l" for e in ents) and rows[0][2] != str(lc):
+                        out.add("C17/file-fault/aggregate-over-readable-data", query=q, got=rows[0][2], want=lc,
+                                unreadable=sorted(vp), control=control[0][2])
                 else:
                     cm = {r[0]: r for r in control}
                     gm = {r[0]: r for r in rows}
